@@ -375,6 +375,9 @@ func c03SliceScenario(x *mc.X) *mc.Outcome {
 		s = z.Slice(z.String())
 	}
 	d := []string{"§sentinel"}
+	if x.Bool("destination pre-populated with spare capacity") {
+		d = append(make([]string, 0, 8), "§old0", "§old1", "§old2", "§old3")
+	}
 	res := s.Parse(data, &d)
 	zh.Reset()
 	out := &mc.Outcome{Traces: 1, Nontrivial: true, Sig: fmt.Sprintf("slice|%d|%d", n, repr)}
@@ -389,6 +392,94 @@ func c03SliceScenario(x *mc.X) *mc.Outcome {
 	if len(d) != len(want) || (len(d) > 0 && !reflect.DeepEqual(d, want)) {
 		x.Note("input %#v", data)
 		out.Viol = append(out.Viol, &mc.Violation{Key: "C03:slice-order-length", What: "slice length/order differs from the input's", Expected: fmt.Sprint(want), Observed: fmt.Sprint(d)})
+	}
+	return out
+}
+
+// c03ReuseScenario: the destination is a function of the input alone — parsing into a destination that
+// already holds values (spare capacity, non-nil pointers, populated nested structs) gives what parsing into
+// a fresh destination gives, for inputs with absent optional elements.
+func c03ReuseScenario(x *mc.X) *mc.Outcome {
+	zh.Reset()
+	zh.Install(x, zh.PoolLIFO, zh.OrderFree)
+	which := x.Choose(3, "schema")
+	n := 1 + x.Choose(3, "len")
+	absentAt := x.Choose(n+1, "absentIndex") // n = none
+	absentKind := x.Choose(3, "absentKind")  // nil, "", missing key (struct elements)
+	mkIn := func(i int) any {
+		if i == absentAt {
+			switch which {
+			case 2:
+				if absentKind == 2 {
+					return map[string]any{"q": i}
+				}
+				return map[string]any{"name": []any{nil, ""}[absentKind%2], "q": i}
+			default:
+				return []any{nil, "", "  "}[absentKind]
+			}
+		}
+		switch which {
+		case 0:
+			return fmt.Sprintf("v%d", i)
+		case 1:
+			return 10 + i
+		default:
+			return map[string]any{"name": fmt.Sprintf("n%d", i), "q": i}
+		}
+	}
+	var in []any
+	for i := 0; i < n; i++ {
+		in = append(in, mkIn(i))
+	}
+	type E struct {
+		Name string
+		Q    int
+	}
+	run := func(pre bool) string {
+		switch which {
+		case 0:
+			s := z.Slice(z.String())
+			var d []string
+			if pre {
+				d = append(make([]string, 0, 8), "old0", "old1", "old2", "old3")
+			}
+			m := s.Parse(in, &d)
+			return fmt.Sprintf("%v %q", m == nil, d)
+		case 1:
+			s := z.Slice(z.Ptr(z.Int()))
+			var d []*int
+			if pre {
+				a, b, c, e := 1, 2, 3, 4
+				d = append(make([]*int, 0, 8), &a, &b, &c, &e)
+			}
+			m := s.Parse(in, &d)
+			var vs []string
+			for _, p := range d {
+				if p == nil {
+					vs = append(vs, "nil")
+				} else {
+					vs = append(vs, fmt.Sprint(*p))
+				}
+			}
+			return fmt.Sprintf("%v %v", m == nil, vs)
+		default:
+			s := z.Slice(z.Struct(z.Schema{"name": z.String(), "q": z.Int()}))
+			var d []E
+			if pre {
+				d = append(make([]E, 0, 8), E{"old0", 90}, E{"old1", 91}, E{"old2", 92}, E{"old3", 93})
+			}
+			m := s.Parse(in, &d)
+			return fmt.Sprintf("%v %+v", m == nil, d)
+		}
+	}
+	fresh := run(false)
+	reused := run(true)
+	zh.Reset()
+	out := &mc.Outcome{Traces: 2, Nontrivial: true, Sig: fmt.Sprintf("reuse|%d|%d|%d|%d", which, n, absentAt, absentKind)}
+	out.Sample = map[string]any{"input": fmt.Sprintf("%#v", in), "fresh": fresh, "into_populated_destination": reused}
+	if fresh != reused {
+		x.Note("schema %d (0 Slice(String), 1 Slice(Ptr(Int)), 2 Slice(Struct{name,q})), input %#v", which, in)
+		out.Viol = append(out.Viol, &mc.Violation{Key: fmt.Sprintf("C03:dest-not-function-of-input:%d", which), What: "parsing into a destination slice that already holds values gives a different result than parsing into a fresh one (slice length and elements must equal the input's; absent elements are zero / nil)", Expected: fresh, Observed: reused})
 	}
 	return out
 }
@@ -409,6 +500,7 @@ func init() {
 				items = append(items, Item{Name: k.name, MaxDevs: -1, Run: c03Scenario(i)})
 			}
 			items = append(items, Item{Name: "slices", MaxDevs: -1, Run: c03SliceScenario})
+			items = append(items, Item{Name: "slices-into-populated-destination", MaxDevs: -1, Run: c03ReuseScenario})
 			return items
 		},
 	})
